@@ -13,6 +13,11 @@ WA = 'mistral.engine.actions.WorkflowAction'
 
 
 def run(ctx):
+    _run(ctx)
+    _resolution_rule(ctx)
+
+
+def _run(ctx):
     prog, sd, cg = ctx.prog, ctx.sd, ctx.cg
     S = sd.consts
     completed = sd.pred_set('is_completed')
@@ -232,3 +237,81 @@ def run(ctx):
                   'GD/PAIR')
     from mstatic.rules import txqueue
     txqueue.queue_shape(ctx, r6)
+
+
+def _resolution_rule(ctx):
+    """Sub-workflow name resolution: workbook-relative name first (only when
+    the parent belongs to a workbook), then the plain name, both in the
+    caller's namespace; an error when neither exists."""
+    from mstatic.rules import dt
+    from mstatic.statedom import OBJ
+    prog = ctx.prog
+    r7 = ctx.rule('R7', 'a sub-workflow name is resolved workbook-relative '
+                  'first, then globally, in the caller\'s namespace',
+                  'DT')
+    f = prog.func('mistral.engine.utils.resolve_workflow_definition')
+    P = f.params
+    cfg = ctx.cfg(f)
+    loads = [(n, c) for n, c in cfg.calls(
+        lambda c: U.call_name(c) == 'load_workflow_definition')]
+    cmpn = [x for x in own_nodes(f.node) if isinstance(x, ast.Compare) and
+            len(x.ops) == 1 and isinstance(x.ops[0], (ast.Eq, ast.NotEq)) and
+            {norm(x.left), norm(x.comparators[0])} == {P[0], P[1]}]
+    if len(loads) != 2 or len(cmpn) != 1:
+        raise AnalysisError('C09.R7: resolve_workflow_definition shape')
+    kc = dt.text(cmpn[0])
+    in_wb_when = isinstance(cmpn[0].ops[0], ast.NotEq)
+    rel = [c for _n, c in loads if norm(c.args[0]) != P[3]]
+    glob = [c for _n, c in loads if norm(c.args[0]) == P[3]]
+    if len(rel) != 1 or len(glob) != 1:
+        raise AnalysisError('C09.R7: relative / global lookups')
+    krel, kglob = dt.text(rel[0]), dt.text(glob[0])
+    # the result variable
+    res = [dotted(x.targets[0]) for x in own_nodes(f.node)
+           if isinstance(x, ast.Assign) and x.value is glob[0]]
+    if len(res) != 1:
+        raise AnalysisError('C09.R7: result variable')
+    res = res[0]
+    t = dt.Table(ctx, f, [(kc, (True, False)), (krel, (None, OBJ)),
+                          (kglob, (None, OBJ))],
+                 extra_vars=[(res, (None, OBJ))])
+
+    def in_wb(e):
+        return e[kc] if in_wb_when else (not e[kc])
+    rn = [n for n, c in loads if c is rel[0]][0]
+    gn = [n for n, c in loads if c is glob[0]][0]
+    t.check_exact(r7, rn, in_wb, 'the workbook-relative name is looked up',
+                  'relative lookup for workbook workflows')
+    t.check_exact(r7, gn, lambda e: not in_wb(e) or e[krel] is None,
+                  'the plain name is looked up',
+                  'global lookup when the relative one found nothing')
+    raises = t.stmt_nodes(lambda a: isinstance(a, ast.Raise))
+    for n in raises:
+        t.check_exact(r7, n, lambda e: (not in_wb(e) or e[krel] is None) and
+                      e[kglob] is None,
+                      'the resolution fails', 'error only when neither exists')
+    rets = t.stmt_nodes(lambda a: isinstance(a, ast.Return))
+    okv = bool(rets)
+    for n in rets:
+        for v in t.full_at(n):
+            e = t.env(v)
+            want = e[krel] if (in_wb(e) and e[krel] is not None) \
+                else e[kglob]
+            if t.ev(n.ast.value, v) != want or want is None:
+                okv = False
+    r7.check(okv, ctx.construct(f, extra='returns what was found'),
+             'the definition returned is not the workbook-relative one when '
+             'it exists and the global one otherwise', ctx.loc(f))
+    # both lookups in the caller's namespace; the relative name is
+    # "<workbook>.<name>"
+    r7.check(all(len(c.args) >= 2 and norm(c.args[1]) == P[2]
+                 for _n, c in loads),
+             ctx.construct(f, extra='namespace passed to both lookups'),
+             'a lookup ignores the namespace of the caller', ctx.loc(f))
+    full = U.canon_expr(f.node, rel[0].args[0])
+    r7.check(U.phas(full, "'%s.%s' % (__wb, " + P[3] + ")"),
+             ctx.construct(f, extra='relative name is <workbook>.<name>'),
+             'the workbook-relative name is not "<workbook>.<child name>"',
+             ctx.loc(f, rel[0]))
+    t.undecided(r7, 'whether the parent belongs to a workbook and what the '
+                'two lookups found')
